@@ -50,11 +50,36 @@ var (
 	substSync = map[string]string{"sync": "verif/sim/sync", "sync/atomic": "verif/sim/atomic", "math/rand": "verif/sim/rand"}
 )
 
+var (
+	substCache = map[string]string{"os": "verif/sim/os", "time": "verif/sim/time", "sync": "verif/sim/sync"}
+	substLF    = map[string]string{"os": "verif/sim/os", "sync": "verif/sim/sync", "syscall": "verif/sim/sys", "time": "verif/sim/time"}
+)
+
+func cacheSpecs() []rewrite.PkgSpec {
+	return []rewrite.PkgSpec{
+		{Dir: repo("cache"), Subst: substCache, GoStmts: true},
+		{Dir: repo("lockedfile"), Subst: substLF, GoStmts: true},
+		{Dir: repo("lockedfile/internal/filelock"), Subst: substLF, GoStmts: true},
+	}
+}
+
 func repo(p string) string { return filepath.Join(repoRoot, p) }
 
 var props = map[string]propCfg{
 	"C09": {
 		Harness:  "./harness/c09",
+		Specs:    []rewrite.PkgSpec{{Dir: repo("par"), Subst: substSync, GoStmts: true}},
+		Quick:    tierCfg{8, 15},
+		Thorough: tierCfg{16, 600},
+	},
+	"C05": {
+		Harness:  "./harness/c05",
+		Specs:    cacheSpecs(),
+		Quick:    tierCfg{8, 20},
+		Thorough: tierCfg{16, 600},
+	},
+	"C10": {
+		Harness:  "./harness/c10",
 		Specs:    []rewrite.PkgSpec{{Dir: repo("par"), Subst: substSync, GoStmts: true}},
 		Quick:    tierCfg{8, 15},
 		Thorough: tierCfg{16, 600},
